@@ -129,8 +129,10 @@ MANIFEST = {
                  "trees read at time n = arithmetic of fractions of Laurent polynomials on the n-th items) + "
                  "translator tie T3 + exact I/O and pull-count differential over call shapes, memory kinds, "
                  "coefficient iterable kinds, raising sources and two-call histories",
-    "note": "67 theorems, no PENDING (callTwice_eq_specCallTwice is proved for every two-call history, incl. those "
-            "whose first output was ended by a coefficient stream).  The tee / thub bookkeeping is an operational "
+    "note": "67 theorems; callTwice_eq_specCallTwice is proved for every two-call history (incl. those whose first "
+            "output was ended by a coefficient stream).  PENDING: hub_nested_reads_once_PENDING (reads-once for NESTED "
+            "hubs on the whole call; proved for hubs directly over their source, the max-over-copies invariant for any "
+            "nesting; the statement is evaluated on every generated input of the entry hub).  The tee / thub bookkeeping is an operational "
             "machine (ALV.C06.Hub: sources, tee groups with shared buffers, Poly.__mul__ / __truediv__ / Stream-gain "
             "rewriting allocate the hubs) with theorems hub_advances_max_over_copies, hub_copy_is_real_copy, "
             "hub_finite_repeat, hub_reads_once(_per_sample), shared_stream_object, call_reads_nothing, hub_loop_step, "
